@@ -603,7 +603,7 @@ func c08free(c *fw.Ctx) {
 	start := make(chan struct{})
 	var overlapping int64
 	var inCommit int32
-	var txnReads int64
+	var txnReads, lateTxns int64
 	var txnBad atomic.Value
 	watch := map[string]bool{} // blocks whose transaction cache is read by a watcher during the commits
 	for f := range forks {
@@ -657,10 +657,31 @@ func c08free(c *fw.Ctx) {
 					}()
 				}
 				tc.Commit()
+				// a second transaction of the block writes a key nobody else uses and commits into the block cache while the
+				// block itself is being committed: whichever comes first, once both calls have returned the block cache
+				// object answers with that transaction's value
+				lateDone := make(chan struct{})
+				if watch[b.hash] {
+					go func() {
+						defer close(lateDone)
+						tc2 := statecache.NewTransactionCache(bc)
+						tc2.Set("late/"+b.hash, statecache.String("txn2/"+b.hash))
+						tc2.Commit()
+					}()
+				} else {
+					close(lateDone)
+				}
 				atomic.AddInt32(&inCommit, 1)
 				bc.Commit()
 				atomic.AddInt32(&inCommit, -1)
 				atomic.StoreInt32(&b.done, 1)
+				<-lateDone
+				if watch[b.hash] {
+					if v, ok := bc.Get("late/" + b.hash); !ok || string(v.(statecache.String)) != "txn2/"+b.hash {
+						txnBad.Store(fmt.Sprintf("a transaction of %s committed into the block cache while the block was being committed; afterwards the block cache answers %v, %v for its key", b.hash, v, ok))
+					}
+					atomic.AddInt64(&lateTxns, 1)
+				}
 				close(stop)
 				wwg.Wait()
 			}
@@ -726,6 +747,7 @@ func c08free(c *fw.Ctx) {
 		return
 	}
 	c.Count("free_lookups_through_a_committing_transaction_cache", atomic.LoadInt64(&txnReads))
+	c.Count("free_transactions_committed_during_their_block_commit", atomic.LoadInt64(&lateTxns))
 	for _, x := range reads {
 		want, has := truth(x.key, x.blk)
 		c.Count("free_lookups", 1)
@@ -816,7 +838,7 @@ func init() {
 			return n + n*ch*2 + free
 		},
 		Run: runC08,
-		Floors: map[string]int64{"free_lookups_through_a_committing_transaction_cache": 10000, "schedules": 80000, "yields_observed": 1500000, "distinct:adjacent_point_pairs": 35, "free_runs": 100, "free_lookups": 30000, "free_lookups_overlapping_a_commit": 2000,
+		Floors: map[string]int64{"free_lookups_through_a_committing_transaction_cache": 10000, "free_transactions_committed_during_their_block_commit": 800, "schedules": 80000, "yields_observed": 1500000, "distinct:adjacent_point_pairs": 35, "free_runs": 100, "free_lookups": 30000, "free_lookups_overlapping_a_commit": 2000,
 			"schedules:uniform random": 25000, "schedules:PCT priorities": 25000, "scenarios_enumerated_completely_to_bound": 1},
 		Assumptions: []string{
 			"mode A: exactly one committer is active at a time and readers never use the BlockCache object that is being committed (its mutex is held for the whole commit): the cooperative scheduler would otherwise block on real mutexes",
